@@ -173,7 +173,7 @@ Definition status_ident (t : tables) (source : string) (i : Z) : ident :=
   mkId i (znth_s (t_names t) i) (znth 0 (t_nums t) i) (rc_rows code) (rc_cols code) (rc_row code) (rc_col code)
        (zlen (t_names t)) (t_subdiv t) (znth 0 (t_sub t) i) source.
 
-Fixpoint files_identb (t : tables) (source : string) (with_off : bool) (i : Z) (cf : list chanfile) : bool :=
+Fixpoint files_identb (t : tables) (source : string) (offs : list Z) (i : Z) (cf : list chanfile) : bool :=
   match cf with
   | [] => true
   | f :: r =>
@@ -181,18 +181,21 @@ Fixpoint files_identb (t : tables) (source : string) (with_off : bool) (i : Z) (
       String.eqb (f_dspname f) (i_chname id) && (f_dspnum f =? i_chnum id)
       && ident_eqb (f_hd f) id
       && (match f_offhd f with
-          | Some h => with_off && ident_eqb h id
-          | None => negb with_off
+          | Some h => has_off offs i && ident_eqb h id    (* an OFF file exactly for the channels with projectors *)
+          | None => negb (has_off offs i)
           end)
-      && files_identb t source with_off (i + 1) r
+      && files_identb t source offs (i + 1) r
   end.
 
 Definition nonempty (s : string) : bool := negb (String.eqb s EmptyString).
 
-Definition check_files (t : tables) (source : string) (with_off : bool) (cf : list chanfile) (nfiles : Z) : bool :=
-  let names := map f_ljh cf ++ map f_ljh3 cf ++ (if with_off then map f_off cf else []) in
+Definition off_names (cf : list chanfile) : list string :=
+  flat_map (fun f => match f_offhd f with Some _ => [f_off f] | None => [] end) cf.
+
+Definition check_files (t : tables) (source : string) (offs : list Z) (cf : list chanfile) (nfiles : Z) : bool :=
+  let names := map f_ljh cf ++ map f_ljh3 cf ++ off_names cf in
   (zlen cf =? zlen (t_names t))
-  && files_identb t source with_off 0 cf
+  && files_identb t source offs 0 cf
   && forallb nonempty names
   && snodupb names                         (* no two streams (or formats) share an output file *)
   && (nfiles =? zlen names + 1).           (* every one of them exists, next to the experiment-state file *)
@@ -246,10 +249,10 @@ Definition check_step (k : cst) (o : op) (b : obs) : option cst :=
          && (0 <=? rows) && (rows <? 65536) && (0 <=? cols) && (cols <? 65536)
       then (if (r =? row) && (c =? col) && (nr =? rows) && (nc =? cols) then Some k else None)
       else Some k
-  | Files base today i with_off, ONoFiles => Some k
-  | Files base today i with_off, OFiles pattern cf nfiles =>
+  | Files base today i offs, ONoFiles => Some k
+  | Files base today i offs, OFiles pattern cf nfiles =>
       match k_last k with
-      | Some (t, src) => if check_files t src with_off cf nfiles then Some k else None
+      | Some (t, src) => if check_files t src offs cf nfiles then Some k else None
       | None => None
       end
   | _, _ => None
